@@ -875,10 +875,16 @@ def main(argv=None):
             n_heap_ok += 1
 
     # ---------------- frame cases
-    edit_stats, n_frame_ok = {}, 0
+    edit_stats, n_frame_ok, n_aborted = {}, 0, 0
     for c in frame_cases:
         try:
-            fails, st = run_frame_case(c)
+            # in a forked child: the analyses among the edits (FVA, pFBA) can make GLPK abort the process
+            how, got = K.run_isolated(run_frame_case, c, timeout=600)
+            if how == "aborted":
+                n_aborted += 1
+                edit_stats["case_aborted_by_solver_library"] = edit_stats.get("case_aborted_by_solver_library", 0) + 1
+                continue
+            fails, st = got
         except Exception as e:  # noqa
             fails, st = [{"step": -1, "edit": ["harness"], "diff": ["%s: %s" % (type(e).__name__, e)]}], {}
         for k, v in st.items():
